@@ -374,8 +374,8 @@ pub fn def() -> PropertyDef {
             "vmhd flags != 1 is only reported as a note (not among size/version/reserved/positions)",
         ],
         subs: vec![
-            Box::new(PSub { name: "progressive", quick: 3000, thorough: 100_000, strat, eval: eval_prog }),
-            Box::new(PSub { name: "fragmented", quick: 2000, thorough: 60_000, strat: strat_frag, eval: eval_frag }),
+            Box::new(PSub { name: "progressive", quick: 20000, thorough: 600000, strat, eval: eval_prog }),
+            Box::new(PSub { name: "fragmented", quick: 12000, thorough: 300000, strat: strat_frag, eval: eval_frag }),
         ],
     }
 }
